@@ -157,6 +157,19 @@ theorem evaluate_preserves_sat_counterexample :
     evaluateDepset F ts = [.leaf ['c'] none] ∧ satTopPMS F T (evaluateDepset F ts) = false ∧ satTopPMS F T ts = true := by
   decide
 
+/-- Members spliced into a parent keep their multiplicity: `^^ ( a x? ( a ) b )` with `x` on evaluates to `^^ ( a a b )`
+— `a` counts twice, so `{a}` does not satisfy it, exactly as it does not satisfy the original read under `x` —
+whereas the de-duplicated `^^ ( a b )` would be satisfied by `{a}`.  (`evaluate_preserves_absent` covers every such
+structure; this instance records why the model's `finish` appends and never merges equal members.) -/
+theorem evaluate_keeps_repeated_members :
+    let ts : List Dep := [.grp .justOne [.leaf ['a'] none, .cond false ['x'] [.leaf ['a'] none], .leaf ['b'] none]]
+    let F : Tok → Bool := fun f => f == ['x']
+    let T : Present := fun k _ => k == ['a']
+    evaluateDepset F ts = [.grp .justOne [.leaf ['a'] none, .leaf ['a'] none, .leaf ['b'] none]]
+      ∧ satTopAbs F T ts = false ∧ satTopAbs F T (evaluateDepset F ts) = false
+      ∧ satTopAbs F T [.grp .justOne [.leaf ['a'] none, .leaf ['b'] none]] = true := by
+  decide
+
 /-! ## tables regenerated from the source tree -/
 
 /-- every group class has its `_evaluate_collapsible` / `_evaluate_wipe_empty` in the generated table, and
